@@ -285,4 +285,5 @@ var Controls = []Control{
 	{"C07", "first collected error argument becomes the cause", "errutil/utilities.go", `err = &withNewMessage\{cause: wrappedErr, message: redactable\}`, `err = &withNewMessage{cause: errRefs[0], message: redactable}`, "R-ARG-NOT-CAUSE"},
 	{"C16", "package domain derived from the caller's function name", "domains/domains.go", `_, f, _, _ := runtime\.Caller\(1 \+ depth\)\n\treturn Domain\("error domain: pkg " \+ filepath\.Dir\(f\)\)`, "pc, _, _, _ := runtime.Caller(1 + depth)\n\treturn Domain(\"error domain: pkg \" + filepath.Dir(runtime.FuncForPC(pc).Name()))", "R-PKG-DOMAIN"},
 	{"C19", "join of one error returns it", "join/join.go", `\tif n == 0 \{\n\t\treturn nil\n\t\}\n`, "\tif n == 0 {\n\t\treturn nil\n\t}\n\tif n == 1 {\n\t\tfor _, err := range errs {\n\t\t\tif err != nil {\n\t\t\t\treturn err\n\t\t\t}\n\t\t}\n\t}\n", "R-JOIN-NODE"},
+	{"C01", "prefix found by a front search of the text", "errutil/redactable.go", `import \(\n(.*?)return l\.prefix\.StripMarkers\(\), l\.SafeDetails\(\)`, "import (\n\t\"strings\"\n${1}return strings.SplitN(l.Error(), \": \", 2)[0], l.SafeDetails()", "R-PREFIX-CUT"},
 }
